@@ -616,6 +616,23 @@ NODE_CORPUS = [
 ]
 
 
+def load_corpus():
+    """Minimised past failures committed under corpus/C05/*.json (replay format); they run first."""
+    import glob
+    import json
+    import os
+
+    from vlib.core import VERIF
+
+    nodes, api = [], []
+    for path in sorted(glob.glob(os.path.join(VERIF, "corpus", "C05", "*.json"))):
+        with open(path) as fh:
+            c = json.load(fh).get("case", {})
+        c = c.get("case", c)
+        (api if c.get("unit") == "api" else nodes).append(c)
+    return nodes, api
+
+
 # --------------------------------------------------------------------------- model side
 def model_case(case):
     c = dict(case)
@@ -731,127 +748,8 @@ def shrink_node_case(case, still_fails):
 
 
 # --------------------------------------------------------------------------- the check
-def _impl_node_and_judge(case):
-    res = run_impl_node(case)
-    return res, judge_node(case, res)
-
-
-def run(chk):
-    chk.rule = (
-        "a case is one ValueNode built from a token spelling (Real rule of DESIGN 5.2 with signs, leading zeros, "
-        "e/E/letter-less exponents; None; Jump; float objects; int tokens) with a padding, followed by value / "
-        "is_negative assignments and format() calls; API cases parse a real surface/cell/transform/material card, "
-        "assign through the public setter and write the card. Values: integers, halves, 1-17 digit decimals over "
-        "1e-300..1e300, ties +- ulps, near-integers, near the old value, +-0.0, random doubles. A case is non-trivial "
-        "when a changed value has to be written (not the unchanged-token shortcut); distinct = distinct canonical JSON."
-    )
-    chk.assumptions = [
-        "model numbers are exact rationals; the implementation's math.isclose works in doubles: model and code may decide differently "
-        "only when a relative error is within 1e-6 (relative) of the 1e-9 threshold; such cases are counted (band:*) and not compared",
-        "inf/nan values, str/enum typed nodes, int objects as tokens of float nodes and underscores in numbers are not modelled",
-        "the oracle pins the tolerance to the property's 1e-9 (not to constants.rel_tol)",
-    ]
-    chk.trusted_base = [
-        "Lean 4.33.0 kernel",
-        "Spec lean/MontePyVerif/Spec/Number.lean as a faithful reading of MCNP's (Fortran) number syntax; cross-checked on every run against "
-        "the independent Python reader tools/vlib/numfmt.py:read_fortran",
-        "hand-written model lean/MontePyVerif/Model/ValueFormat.lean, tied to the code by the correspondences of this run "
-        "(U-pyformat validates the exact-rational model of CPython's format against CPython itself)",
-        "translator plug-in tools/extractors/valueformat.py (Gen/ValueFormat.lean) and tools/extract.py (Gen/Constants.lean)",
-        "harness tools/props/c05.py (calls the real ValueNode, the real parsers and setters in-process)",
-    ]
-    leanio.prove(chk, "MontePyVerif.Props.C05", THEOREMS, "MontePyVerif.C05")
-    drv = leanio.Driver(chk, "drv_c05")
-
-    # ------------------------------------------------------------------ U-pyformat
-    rng = chk.rng("pyformat")
-    pf = [gen_pyformat_case(rng, i) for i in range(chk.pick(12000, 300000))]
-    pf_impl = pmap(run_impl_pyformat, pf, workers=WORKERS, chunksize=500)
-    pf_model = batch_par(drv, pf)
-    bad = 0
-    for case, ti, rm in zip(pf, pf_impl, pf_model or []):
-        chk.count("pyformat:" + case["style"])
-        if rm.get("text") != ti:
-            if chk.disagreements_checked >= MAX_CONFIRM:
-                chk.count("disagreement-not-rechecked:pyformat")
-            elif run_impl_pyformat(case) == ti and drv.batch([case])[0].get("text") != ti:
-                bad += 1
-                chk.disagreements_checked += 1
-                chk.broken_obligation("correspondence", "U-pyformat (Model pyFormat vs CPython format)", {"impl": ti, "model": rm}, case)
-            else:
-                chk.count("flaky:pyformat")
-        else:
-            if rm.get("render_ok") is False:
-                chk.broken_obligation("correspondence", RENDER_OK, {"text": ti}, case)
-            # the model's text read by the Spec must be what the independent reader reads
-            y = nf.read_fortran(nf.first_word(ti))
-            if nf.unrat(rm.get("spec")) != y:
-                chk.broken_obligation("correspondence", "U-read (Spec.parseNumber vs independent reader)", {"text": ti, "spec": rm.get("spec"), "py": str(y)}, case)
-        chk.traces_validated += 1
-    chk.units["U-pyformat"] = {"random": len(pf), "disagreements": bad}
-
-    # ------------------------------------------------------------------ U-read, U-isclose
-    rng = chk.rng("read")
-    rd = [gen_read_case(rng, i) for i in range(chk.pick(4000, 60000))]
-    rd_impl = pmap(run_impl_read, rd, workers=WORKERS, chunksize=500)
-    rd_model = batch_par(drv, rd)
-    for case, ri, rm in zip(rd, rd_impl, rd_model or []):
-        w = case["word"]
-        chk.traces_validated += 1
-        spec, ff = nf.unrat(rm["spec"]), nf.unrat(rm["fortran_float"])
-        py = nf.read_fortran(w)
-        probs = []
-        if spec != py:
-            probs.append(("U-read (Spec.parseNumber vs independent reader)", {"word": w, "spec": str(spec), "py": str(py)}))
-        if ri["ffs"] == "ValueError" and ff is not None or ri["ffs"] == "ok" and (ff is None or nf.to_float(ff) != ri["ff"]):
-            if not (ri["ffs"] == "ValueError" and "_" in w) and not (ri["ffs"] == "ok" and ("_" in w or w.strip().lower().lstrip("+-") in ("inf", "nan", "infinity"))):
-                probs.append(("U-read (Model fortranFloat vs utilities.fortran_float)", {"word": w, "impl": ri, "model": str(ff)}))
-        mi = None if rm["int"] is None else int(rm["int"])
-        if mi != ri["int"] and "_" not in w:
-            probs.append(("U-read (Model pyInt vs int())", {"word": w, "impl": ri["int"], "model": mi}))
-        for name, detail in probs:
-            chk.disagreements_checked += 1
-            chk.broken_obligation("correspondence", name, detail, case)
-    chk.units["U-read"] = {"words": len(rd)}
-
-    rng = chk.rng("isclose")
-    ic = []
-    for i in range(chk.pick(2000, 20000)):
-        a = nf.gen_value(rng)
-        f = rng.choice([0.0, 1e-12, 1e-10, 3e-10, 9e-10, 1.1e-9, 3e-9, 1e-8, 1e-6, 0.5, -1e-10, -2e-9])
-        b = a * (1 + f) if rng.random() < 0.8 else nf.gen_value(rng)
-        if not (math.isfinite(a) and math.isfinite(b)):
-            continue
-        ic.append({"unit": "isclose", "a": nf.num(a), "b": nf.num(b)})
-    ic_model = batch_par(drv, ic)
-    from vlib import mp  # noqa: F401
-
-    from montepy import constants as mconst
-
-    for case, rm in zip(ic, ic_model or []):
-        a, b = nf.unnum(case["a"]), nf.unnum(case["b"])
-        want = math.isclose(a, b, rel_tol=mconst.rel_tol, abs_tol=mconst.abs_tol)
-        r = nf.rel_err(Fraction(a), b)
-        chk.traces_validated += 1
-        if (rm["model"] != want or rm["spec"] != want) and not nf.in_band(r):
-            chk.disagreements_checked += 1
-            chk.broken_obligation("correspondence", "U-isclose (Model/Spec isClose vs math.isclose)", {"impl": want, "model": rm}, case)
-    chk.units["U-isclose"] = {"pairs": len(ic)}
-
-    # ------------------------------------------------------------------ U-valueformat + oracle
-    rng = chk.rng("nodes")
-    cases = list(NODE_CORPUS)
-    ncorpus = len(cases)
-    cases += [gen_node_case(rng, i) for i in range(chk.pick(20000, 600000))]
-    nrandom = len(cases) - ncorpus
-    if chk.thorough:
-        exh = list(gen_exhaustive_nodes(nf.FIXED_SPELLINGS, nf.FIXED_VALUES + [-v for v in nf.FIXED_VALUES[2:40]], [None, [["s", 1]]]))
-    else:
-        exh = list(gen_exhaustive_nodes(nf.FIXED_SPELLINGS[::2], nf.FIXED_VALUES[::2], [None if chk.seed % 2 == 0 else [["s", 1]]]))
-    cases += exh
-    chk.units["U-valueformat"] = {"corpus": ncorpus, "random": nrandom, "exhaustive_small": len(exh)}
-    chk.exhaustive = False
-
+def _check_node_slice(chk, drv, cases):
+    """U-valueformat correspondence and the oracle on one slice of node cases (bounded memory)."""
     both = pmap(_impl_node_and_judge, cases, workers=WORKERS, chunksize=500)
     model = batch_par(drv, [model_case(c) for c in cases])
     # the written words of the real code, re-read by the Lean Spec
@@ -930,9 +828,134 @@ def run(chk):
                     mc,
                 )
 
+
+
+def _impl_node_and_judge(case):
+    res = run_impl_node(case)
+    return res, judge_node(case, res)
+
+
+def run(chk):
+    chk.rule = (
+        "a case is one ValueNode built from a token spelling (Real rule of DESIGN 5.2 with signs, leading zeros, "
+        "e/E/letter-less exponents; None; Jump; float objects; int tokens) with a padding, followed by value / "
+        "is_negative assignments and format() calls; API cases parse a real surface/cell/transform/material card, "
+        "assign through the public setter and write the card. Values: integers, halves, 1-17 digit decimals over "
+        "1e-300..1e300, ties +- ulps, near-integers, near the old value, +-0.0, random doubles. A case is non-trivial "
+        "when a changed value has to be written (not the unchanged-token shortcut); distinct = distinct canonical JSON."
+    )
+    chk.assumptions = [
+        "model numbers are exact rationals; the implementation's math.isclose works in doubles: model and code may decide differently "
+        "only when a relative error is within 1e-6 (relative) of the 1e-9 threshold; such cases are counted (band:*) and not compared",
+        "inf/nan values, str/enum typed nodes, int objects as tokens of float nodes and underscores in numbers are not modelled",
+        "the oracle pins the tolerance to the property's 1e-9 (not to constants.rel_tol)",
+    ]
+    chk.trusted_base = [
+        "Lean 4.33.0 kernel",
+        "Spec lean/MontePyVerif/Spec/Number.lean as a faithful reading of MCNP's (Fortran) number syntax; cross-checked on every run against "
+        "the independent Python reader tools/vlib/numfmt.py:read_fortran",
+        "hand-written model lean/MontePyVerif/Model/ValueFormat.lean, tied to the code by the correspondences of this run "
+        "(U-pyformat validates the exact-rational model of CPython's format against CPython itself)",
+        "translator plug-in tools/extractors/valueformat.py (Gen/ValueFormat.lean) and tools/extract.py (Gen/Constants.lean)",
+        "harness tools/props/c05.py (calls the real ValueNode, the real parsers and setters in-process)",
+    ]
+    leanio.prove(chk, "MontePyVerif.Props.C05", THEOREMS, "MontePyVerif.C05")
+    drv = leanio.Driver(chk, "drv_c05")
+
+    # ------------------------------------------------------------------ U-pyformat
+    rng = chk.rng("pyformat")
+    pf = [gen_pyformat_case(rng, i) for i in range(chk.pick(12000, 500000))]
+    pf_impl = pmap(run_impl_pyformat, pf, workers=WORKERS, chunksize=500)
+    pf_model = batch_par(drv, pf)
+    bad = 0
+    for case, ti, rm in zip(pf, pf_impl, pf_model or []):
+        chk.count("pyformat:" + case["style"])
+        if rm.get("text") != ti:
+            if chk.disagreements_checked >= MAX_CONFIRM:
+                chk.count("disagreement-not-rechecked:pyformat")
+            elif run_impl_pyformat(case) == ti and drv.batch([case])[0].get("text") != ti:
+                bad += 1
+                chk.disagreements_checked += 1
+                chk.broken_obligation("correspondence", "U-pyformat (Model pyFormat vs CPython format)", {"impl": ti, "model": rm}, case)
+            else:
+                chk.count("flaky:pyformat")
+        else:
+            if rm.get("render_ok") is False:
+                chk.broken_obligation("correspondence", RENDER_OK, {"text": ti}, case)
+            # the model's text read by the Spec must be what the independent reader reads
+            y = nf.read_fortran(nf.first_word(ti))
+            if nf.unrat(rm.get("spec")) != y:
+                chk.broken_obligation("correspondence", "U-read (Spec.parseNumber vs independent reader)", {"text": ti, "spec": rm.get("spec"), "py": str(y)}, case)
+        chk.traces_validated += 1
+    chk.units["U-pyformat"] = {"random": len(pf), "disagreements": bad}
+
+    # ------------------------------------------------------------------ U-read, U-isclose
+    rng = chk.rng("read")
+    rd = [gen_read_case(rng, i) for i in range(chk.pick(4000, 60000))]
+    rd_impl = pmap(run_impl_read, rd, workers=WORKERS, chunksize=500)
+    rd_model = batch_par(drv, rd)
+    for case, ri, rm in zip(rd, rd_impl, rd_model or []):
+        w = case["word"]
+        chk.traces_validated += 1
+        spec, ff = nf.unrat(rm["spec"]), nf.unrat(rm["fortran_float"])
+        py = nf.read_fortran(w)
+        probs = []
+        if spec != py:
+            probs.append(("U-read (Spec.parseNumber vs independent reader)", {"word": w, "spec": str(spec), "py": str(py)}))
+        if ri["ffs"] == "ValueError" and ff is not None or ri["ffs"] == "ok" and (ff is None or nf.to_float(ff) != ri["ff"]):
+            if not (ri["ffs"] == "ValueError" and "_" in w) and not (ri["ffs"] == "ok" and ("_" in w or w.strip().lower().lstrip("+-") in ("inf", "nan", "infinity"))):
+                probs.append(("U-read (Model fortranFloat vs utilities.fortran_float)", {"word": w, "impl": ri, "model": str(ff)}))
+        mi = None if rm["int"] is None else int(rm["int"])
+        if mi != ri["int"] and "_" not in w:
+            probs.append(("U-read (Model pyInt vs int())", {"word": w, "impl": ri["int"], "model": mi}))
+        for name, detail in probs:
+            chk.disagreements_checked += 1
+            chk.broken_obligation("correspondence", name, detail, case)
+    chk.units["U-read"] = {"words": len(rd)}
+
+    rng = chk.rng("isclose")
+    ic = []
+    for i in range(chk.pick(2000, 20000)):
+        a = nf.gen_value(rng)
+        f = rng.choice([0.0, 1e-12, 1e-10, 3e-10, 9e-10, 1.1e-9, 3e-9, 1e-8, 1e-6, 0.5, -1e-10, -2e-9])
+        b = a * (1 + f) if rng.random() < 0.8 else nf.gen_value(rng)
+        if not (math.isfinite(a) and math.isfinite(b)):
+            continue
+        ic.append({"unit": "isclose", "a": nf.num(a), "b": nf.num(b)})
+    ic_model = batch_par(drv, ic)
+    from vlib import mp  # noqa: F401
+
+    from montepy import constants as mconst
+
+    for case, rm in zip(ic, ic_model or []):
+        a, b = nf.unnum(case["a"]), nf.unnum(case["b"])
+        want = math.isclose(a, b, rel_tol=mconst.rel_tol, abs_tol=mconst.abs_tol)
+        r = nf.rel_err(Fraction(a), b)
+        chk.traces_validated += 1
+        if (rm["model"] != want or rm["spec"] != want) and not nf.in_band(r):
+            chk.disagreements_checked += 1
+            chk.broken_obligation("correspondence", "U-isclose (Model/Spec isClose vs math.isclose)", {"impl": want, "model": rm}, case)
+    chk.units["U-isclose"] = {"pairs": len(ic)}
+
+    # ------------------------------------------------------------------ U-valueformat + oracle
+    rng = chk.rng("nodes")
+    file_nodes, file_api = load_corpus()
+    corpus_cases = file_nodes + list(NODE_CORPUS)
+    ncorpus = len(corpus_cases)
+    nrandom = chk.pick(20000, 2000000)
+    if chk.thorough:
+        exh = list(gen_exhaustive_nodes(nf.FIXED_SPELLINGS, nf.FIXED_VALUES + [-v for v in nf.FIXED_VALUES[2:40]], [None, [["s", 1]]]))
+    else:
+        exh = list(gen_exhaustive_nodes(nf.FIXED_SPELLINGS[::2], nf.FIXED_VALUES[::2], [None if chk.seed % 2 == 0 else [["s", 1]]]))
+    chk.units["U-valueformat"] = {"corpus": ncorpus, "random": nrandom, "exhaustive_small": len(exh)}
+    chk.exhaustive = False
+    _check_node_slice(chk, drv, corpus_cases + exh)  # the corpus of past failures runs first
+    SLICE = 250000  # generated slice by slice (one rng stream): bounded memory
+    for lo in range(0, nrandom, SLICE):
+        _check_node_slice(chk, drv, [gen_node_case(rng, i) for i in range(lo, min(lo + SLICE, nrandom))])
     # ------------------------------------------------------------------ API level (real parsers, setters, writer)
     rng = chk.rng("api")
-    api = list(API_CORPUS) + [gen_api_case(rng, i) for i in range(chk.pick(2500, 40000))]
+    api = file_api + list(API_CORPUS) + [gen_api_case(rng, i) for i in range(chk.pick(2500, 40000))]
     api_res = pmap(run_impl_api, api, workers=WORKERS, chunksize=100)
     states = [(i, r["state"]) for i, r in enumerate(api_res) if r.get("state") and "node_text" in r]
     st_model = batch_par(drv, [s for _, s in states])
@@ -991,7 +1014,7 @@ def run(chk):
                     {"impl": res["node_text"], "model": m.get("text"), "state": res["state"]},
                     case,
                 )
-    chk.units["U-api"] = {"corpus": len(API_CORPUS), "random": len(api) - len(API_CORPUS), "live_nodes_compared": len(states)}
+    chk.units["U-api"] = {"corpus": len(API_CORPUS) + len(file_api), "random": len(api) - len(API_CORPUS) - len(file_api), "live_nodes_compared": len(states)}
     if chk.thorough and not chk.broken:
         leanio.leanchecker(chk, ["MontePyVerif.Props.C05"])
 
